@@ -175,6 +175,7 @@ type checkOpts struct {
 	workers  int
 	verbose  bool
 	budget   time.Duration
+	dump     string
 }
 
 func parseCheck(args []string) checkOpts {
@@ -206,6 +207,8 @@ func parseCheck(args []string) checkOpts {
 			o.workers, _ = strconv.Atoi(nextArg())
 		case "--budget":
 			o.budget, _ = time.ParseDuration(nextArg())
+		case "--dump":
+			o.dump = nextArg()
 		case "-v":
 			o.verbose = true
 		default:
@@ -252,7 +255,7 @@ func cmdCheck(args []string) int {
 		cfg := &sym.Config{
 			Prog: prog, Harness: h.Name(), Entry: h, Thorough: thorough, Known: known,
 			SolverName: o.solver, WantSample: true, MaxPaths: o.maxPaths, Workers: o.workers,
-			ValidateMax: map[bool]int{false: 24, true: 200}[thorough],
+			ValidateMax: map[bool]int{false: 24, true: 200}[thorough], DumpFile: o.dump,
 		}
 		if o.budget > 0 {
 			cfg.Deadline = time.Now().Add(o.budget)
@@ -265,6 +268,23 @@ func cmdCheck(args []string) int {
 		if o.verbose || len(rep.Inconclusive) > 0 {
 			for _, s := range rep.Inconclusive {
 				fmt.Println("  inconclusive:", s)
+			}
+		}
+		if o.verbose {
+			type kv struct {
+				k string
+				v int
+			}
+			var fs []kv
+			for k, v := range rep.Forks {
+				fs = append(fs, kv{k, v})
+			}
+			sort.Slice(fs, func(i, j int) bool { return fs[i].v > fs[j].v })
+			for i, f := range fs {
+				if i >= 25 {
+					break
+				}
+				fmt.Printf("  fork-site %-60s %d\n", f.k, f.v)
 			}
 		}
 		if len(rep.NotReached) > 0 {
